@@ -55,6 +55,28 @@ let cmd_read r =
                      pr_rows s.f_shape; tok_of_q s.f_braster; tok_of_q s.f_rfraster; tok_of_q s.f_gradraster;
                      tok_of_q s.f_adcraster]
 
+(* file.rw: same input as file.read; output = write_rows (read_rows sys rows), printed like file.write *)
+let cmd_rw r =
+  let b = rd_q r in let rf_ = rd_q r in let g = rd_q r in let a = rd_q r in let dead = rd_q r in
+  let sy = { s_braster = b; s_rfraster = rf_; s_gradraster = g; s_adcraster = a; s_adc_dead = dead } in
+  let defs = rd_defs r in
+  let blocks = rd_rows r in
+  let rf = rd_rows r in
+  let grad = rd_rows r in
+  let trap = rd_rows r in
+  let adc = rd_rows r in
+  let ext = rd_rows r in
+  let trig = rd_rows r in
+  let lset = rd_rows r in
+  let linc = rd_rows r in
+  let shape = rd_rows r in
+  let f = { r_defs = defs; r_blocks = blocks; r_rf = rf; r_grad = grad; r_trap = trap; r_adc = adc; r_ext = ext;
+            r_trig = trig; r_lset = lset; r_linc = linc; r_shape = shape } in
+  let o = write_rows (read_rows sy f) in
+  String.concat " " [pr_defs o.r_defs; pr_rows o.r_blocks; pr_rows o.r_rf; pr_rows o.r_grad; pr_rows o.r_trap;
+                     pr_rows o.r_adc; pr_rows o.r_ext; pr_rows o.r_trig; pr_rows o.r_lset; pr_rows o.r_linc;
+                     pr_rows o.r_shape]
+
 (* file.sig n x  /  file.int x : single conversions *)
 let cmd_sig r = let n = rd_z r in let x = rd_q r in tok_of_q (fmt_sig n x)
 let cmd_int r = let x = rd_q r in tok_of_q (fmt_int x)
@@ -62,5 +84,6 @@ let cmd_int r = let x = rd_q r in tok_of_q (fmt_int x)
 let () =
   Driver.register "file.write" cmd_write;
   Driver.register "file.read" cmd_read;
+  Driver.register "file.rw" cmd_rw;
   Driver.register "file.sig" cmd_sig;
   Driver.register "file.int" cmd_int
